@@ -275,6 +275,8 @@ class ExprMixin:
                 sa = a.single_atom()
                 if sa is None or sa[0] == 'idx':
                     known = False
+                elif sa in getattr(self, 'types', {}):
+                    known = False       # declared to be an instance of a class of the package
                 elif sa[0] == 'app' and not sa[1].startswith(('m:', 'call:', 'callv', 'dict', 'kwargs')) and \
                         sa[1] not in ('next', 'getattr', 'ifexp', 'min', 'max', 're.match', 're.search', 'os.environ.get'):
                     known = False       # arithmetic / array-creating results are never None (next(it, None) etc. can be)
